@@ -320,6 +320,7 @@ def pairwise_annotations_spacing(X, max_distance=100, dtype=torch.uint8,
 
 	_validate_input(X, 'X', shape=(-1, 4), min_value=0)
 
+	X = X.type(torch.int64)
 	n_examples, n_annotations = X.max(dim=0).values[:2] + 1
 
 	if shape is not None:
